@@ -68,17 +68,14 @@ package crypto
 //@ requires a != nil && valid(out, 32)
 //@ assigns out[0:32]
 
-//@ cfunc Fr_is_zero pure
-//@ requires a != nil
-//@ assigns nothing
-
 //@ cfunc G2_check_log pure props C07 C09
 //@ requires x != nil && y != nil
 //@ assigns nothing
 
-//@ cfunc G2_mult_gen_to_affine props C09
+//@ cfunc G2_mult_gen_to_affine props C09 C12
 //@ requires res != nil && expo != nil
 //@ assigns *res
+//@ ensures *res == g2mulgen(old(*expo))
 
 //@ cfunc G2_vector_read_bytes props C07 C09
 //@ requires A_len >= 0 && valid(A, A_len) && valid(src, 96*A_len)
@@ -136,9 +133,10 @@ package crypto
 //@ requires 1 <= len(out) && len(out) <= 255 && len(A) >= 1
 //@ assigns out[:]
 
-//@ func generatorScalarMultG2 mode int props C09
+//@ func generatorScalarMultG2 mode int props C09 C12
 //@ requires res != nil && expo != nil
 //@ assigns *res
+//@ ensures *res == g2mulgen(old(*expo))
 
 //@ func (*scalar).isZero mode int props C09
 //@ requires x != nil
@@ -991,3 +989,41 @@ package crypto
 //@ func writeScalar mode int props C05 C09
 //@ requires x != nil && len(dest) >= 32
 //@ assigns dest[0:32]
+
+//@ func (*prKeyBLSBLS12381).PublicKey mode int props C12 C16 C09
+//@ requires sk != nil
+//@ assigns sk.pk
+//@ ensures result != nil && typeis(result, *pubKeyBLSBLS12381) && unbox(result, *pubKeyBLSBLS12381) == sk.pk && sk.pk != nil && unchanged(sk.scalar)
+//@ ensures [public-key-is-sk-times-g2] old(sk.pk) == nil ==> sk.pk.point == g2mulgen(sk.scalar) && fresh(sk.pk)
+//@ ensures [cache] old(sk.pk) != nil ==> sk.pk == old(sk.pk)
+
+//@ func (*prKeyBLSBLS12381).computePublicKey mode int props C12 C09
+//@ requires sk != nil
+//@ assigns sk.pk
+//@ ensures sk.pk != nil && fresh(sk.pk) && sk.pk.point == g2mulgen(sk.scalar) && unchanged(sk.scalar)
+
+//@ cfunc Fr_is_zero nobody pure
+//@ requires a != nil
+//@ assigns nothing
+//@ ensures result == (*a == 0)
+
+//@ func BLSGeneratePOP mode int props C16 C09
+//@ requires sk != nil && (typeis(sk, *prKeyBLSBLS12381) ==> unbox(sk, *prKeyBLSBLS12381) != nil)
+//@ assigns everything
+//@ ensures [not-bls-key] !typeis(sk, *prKeyBLSBLS12381) ==> result1 == errNotBLSKey && len(result0) == 0
+//@ ensures [pop-is-a-signature-under-the-pop-suite] typeis(sk, *prKeyBLSBLS12381) ==> result1 == nil && len(result0) == 48 && exists(d, g1encOf(result0, e1Mul(h2cd(hout(kmacCfg(seqid("BLS_POP_BLS12381G1_XOF:KMAC128_SSWU_RO_POP_"), seqid("H2C"), 128), d)), unbox(sk, *prKeyBLSBLS12381).scalar)))
+
+//@ func SPOCKProve mode int props C17 C09
+//@ requires sk != nil && (typeis(sk, *prKeyBLSBLS12381) ==> unbox(sk, *prKeyBLSBLS12381) != nil)
+//@ assigns ghost(kmac)
+//@ ensures [same-as-sign] typeis(sk, *prKeyBLSBLS12381) && unbox(sk, *prKeyBLSBLS12381) != nil && hasherOK(kmac) ==> result1 == nil && len(result0) == 48 && g1encOf(result0, e1Mul(h2cd(hout(kmac.cfg, seqid(data))), unbox(sk, *prKeyBLSBLS12381).scalar))
+
+//@ func SPOCKVerifyAgainstData mode int props C17 C09
+//@ requires pk != nil && (typeis(pk, *pubKeyBLSBLS12381) ==> unbox(pk, *pubKeyBLSBLS12381) != nil)
+//@ assigns ghost(kmac)
+//@ ensures [same-as-verify] typeis(pk, *pubKeyBLSBLS12381) && unbox(pk, *pubKeyBLSBLS12381) != nil && hasherOK(kmac) && len(proof) == 48 && !unbox(pk, *pubKeyBLSBLS12381).isIdentity ==> result1 == nil && result0 == (g1canon(proof) && inG1(g1pt(proof)) && pairOK2(g1pt(proof), negG2(), h2cd(hout(kmac.cfg, seqid(data))), unbox(pk, *pubKeyBLSBLS12381).point))
+
+//@ cfunc G2_mult_gen nobody
+//@ requires res != nil && expo != nil
+//@ assigns *res
+//@ ensures *res == g2mulJ(old(*expo))
